@@ -980,6 +980,8 @@ pub fn scen_tap_probes(m: &Model, setup: &Setup, iterate_k: usize, probes: usize
     // every constraint is posted with tag = index + 1 (clauses cannot be tagged)
     let mut built = build(solver, m, false, true, setup.style_seed);
     out.push(format!("model {}", m.emit()));
+    // root facts after posting (unit clauses leave no tap record)
+    let root_facts_after_post: Vec<Predicate> = root_facts(&built.solver);
     if let Some(i) = built.failed_at {
         out.meta(format!("posterr at={} kind={}", i, m.cons[i].full_kind()));
     } else {
@@ -1205,6 +1207,85 @@ pub fn scen_tap_probes(m: &Model, setup: &Setup, iterate_k: usize, probes: usize
                 }
             }
         }
+    }
+    // Derivation of the learned nogoods (all iterations, whatever blocking clauses have been added):
+    // every learned nogood must follow by domain-aware unit propagation (Check/AtomRup.lean) from
+    // the reasons which were handed to its conflict analysis, the conflict itself (or the
+    // propagation which emptied a domain), the root-level propagations made so far and the nogoods
+    // learned before. Each of those clauses is judged on its own elsewhere (explicit reasons against
+    // their constraint, implicit reasons against Model/ImplicitReason), so a nogood which does not
+    // follow from the model plus the blocking clauses cannot pass.
+    {
+        let clause_of = |r: &TapRecord| -> Option<String> {
+            if !(r.reason.iter().all(in_model) && r.predicate.as_ref().map(in_model).unwrap_or(true)) {
+                return None;
+            }
+            let prem: Vec<Atom> = r.reason.iter().map(|p| atom_of(*p)).collect();
+            let concl = match r.predicate.map(atom_of) {
+                Some(a) => {
+                    let mut s = String::new();
+                    a.emit(&mut s);
+                    s.trim().to_string()
+                }
+                None => "none".to_string(),
+            };
+            Some(format!("{} {}", fmt_atoms(&prem), concl))
+        };
+        let mut root: Vec<String> = vec![]; // level-0 facts and propagations so far
+        for p in &root_facts_after_post {
+            if in_model(p) && p.get_domain().id != 0 {
+                let mut s = String::new();
+                atom_of(*p).emit(&mut s);
+                root.push(format!("0 {}", s.trim()));
+            }
+        }
+        let mut learned: Vec<String> = vec![]; // earlier learned nogoods, as clauses
+        let mut window: Vec<String> = vec![]; // since the previous learned nogood
+        let mut window_ok = true;
+        let mut emitted = 0;
+        let mut skipped = 0;
+        for r in &records {
+            match r.kind {
+                TapKind::Propagation | TapKind::Conflict | TapKind::AnalysisReason => match clause_of(r) {
+                    Some(c) => {
+                        if r.kind == TapKind::Propagation && r.level == 0 {
+                            if root.len() < 600 {
+                                root.push(c);
+                            }
+                        } else {
+                            window.push(c);
+                        }
+                    }
+                    None => window_ok = false,
+                },
+                TapKind::Learned => {
+                    let ok = window_ok && r.reason.iter().all(in_model);
+                    if ok && emitted < 120 {
+                        let ng: Vec<Atom> = r.reason.iter().map(|p| atom_of(*p)).collect();
+                        let w: Vec<String> = window.iter().rev().take(300).cloned().collect();
+                        let l: Vec<String> = learned.iter().rev().take(300).cloned().collect();
+                        let all: Vec<&String> = w.iter().chain(root.iter()).chain(l.iter()).collect();
+                        out.push(format!(
+                            "derive {} {} :: {}",
+                            all.len(),
+                            all.iter().map(|s| s.as_str()).collect::<Vec<_>>().join(" "),
+                            fmt_atoms(&ng)
+                        ));
+                        emitted += 1;
+                    } else {
+                        skipped += 1;
+                    }
+                    if r.reason.iter().all(in_model) {
+                        let ng: Vec<Atom> = r.reason.iter().map(|p| atom_of(*p)).collect();
+                        learned.push(format!("{} none", fmt_atoms(&ng)));
+                    }
+                    window.clear();
+                    window_ok = true;
+                }
+                _ => {}
+            }
+        }
+        out.meta(format!("derive emitted={} skipped={}", emitted, skipped));
     }
     out.meta(format!(
         "tap records={} propagation={} conflict={} analysis={} learned={} distinct={}",
